@@ -50,6 +50,22 @@ func pow(base int64, k int) *big.Int {
 // abstractB58Encode: Base58 as an abstract injective map (contract established by C07 on the real code).
 func (e *Exec) abstractB58Encode(bs []*smt.Term) Value {
 	n := len(bs)
+	// encoding the same bytes again gives the same string
+	for _, r := range e.b58 {
+		if len(r.bytes) != n {
+			continue
+		}
+		same := true
+		for i := range bs {
+			if !smt.Same(r.bytes[i], bs[i]) && !smt.StructEq(r.bytes[i], bs[i]) {
+				same = false
+				break
+			}
+		}
+		if same {
+			return &Str{B: r.chars}
+		}
+	}
 	z := e.choose(n+1, func(i int) bool { return e.feasible(leadZeros(bs, i)) })
 	e.pc = append(e.pc, leadZeros(bs, z))
 	m := n - z
@@ -235,6 +251,27 @@ func (e *Exec) harnessAPI2(fn *ssa.Function, args []Value) (Value, bool) {
 			e.ufLog = append(e.ufLog, ufLogEntry{name: "vUF64:" + name, args: la, res: app})
 		}
 		return app, true
+	case "vInverseTables":
+		// vInverseTables(a string, b []byte) bool: verify on the real contents that b inverts a,
+		// and if so let Int-mode lookups use inverse lemmas instead of 256-way definitions
+		as := args[0].(*Str)
+		bs := e.sliceTerms(args[1])
+		var av, bv []int64
+		for _, t := range as.B {
+			c, ok := t.ConstU()
+			if !ok {
+				e.unsupported("vInverseTables: non-constant table")
+			}
+			av = append(av, int64(c))
+		}
+		for _, t := range bs {
+			c, ok := t.ConstU()
+			if !ok {
+				e.unsupported("vInverseTables: non-constant table")
+			}
+			bv = append(bv, int64(c))
+		}
+		return smt.BoolC(e.pairTables(av, bv)), true
 	case "vFailedCount":
 		return smt.BVC(64, 0), true
 	case "vWatchOff":
